@@ -718,16 +718,13 @@ func (c *control) dirEval(colon, at bool, params []any) {
 }
 
 func (c *control) dirProc(colon, at bool, params []any) {
-	var ctrl []byte
-	if c.argPos < len(c.args) {
-		c.needArg()
-		ss, ok := c.args[c.argPos].(slip.String)
-		if !ok {
-			slip.ErrorPanic(c.scope, 0, "recursive processing directive expected a control string at %d of %q", c.pos, c.str)
-		}
-		ctrl = []byte(ss)
-		c.argPos++
+	c.needArg()
+	ss, ok := c.args[c.argPos].(slip.String)
+	if !ok {
+		slip.ErrorPanic(c.scope, 0, "recursive processing directive expected a control string at %d of %q", c.pos, c.str)
 	}
+	ctrl := []byte(ss)
+	c.argPos++
 	c2 := control{
 		scope: c.scope,
 		str:   ctrl,
@@ -737,13 +734,10 @@ func (c *control) dirProc(colon, at bool, params []any) {
 		c2.args = c.args
 		c2.argPos = c.argPos
 	} else {
-		var args slip.List
-		if c.argPos < len(c.args) {
-			var ok bool
-			c.needArg()
-			if args, ok = c.args[c.argPos].(slip.List); !ok && c.args[c.argPos] != nil { // nil is the empty list
-				slip.ErrorPanic(c.scope, 0, "recursive processing directive expected an argument list at %d of %q", c.pos, c.str)
-			}
+		c.needArg()
+		args, ok := c.args[c.argPos].(slip.List)
+		if !ok && c.args[c.argPos] != nil { // nil is the empty list
+			slip.ErrorPanic(c.scope, 0, "recursive processing directive expected an argument list at %d of %q", c.pos, c.str)
 		}
 		c2.args = args
 		c2.argPos = 0
@@ -1507,11 +1501,9 @@ func (c *control) dirCond(colon, at bool, params []any) {
 	}
 	var arg slip.Object
 	if colon || at || n < 0 {
-		if c.argPos < len(c.args) {
-			c.needArg()
-			arg = c.args[c.argPos]
-			c.argPos++
-		}
+		c.needArg()
+		arg = c.args[c.argPos]
+		c.argPos++
 	}
 	if list, ok := arg.(slip.List); ok && len(list) == 0 {
 		arg = nil // an empty list is nil, the false value
@@ -1664,12 +1656,9 @@ func (c *control) dirIter(colon, at bool, params []any) {
 	case colon:
 		// The iterator argument must be a list of lists with the each list
 		// element being consumed by one iteration.
-		var argList slip.List
-		if c.argPos < len(c.args) {
-			c.needArg()
-			argList = c.objAsList(c.args[c.argPos], "iteration directive argument")
-			c.argPos++
-		}
+		c.needArg()
+		argList := c.objAsList(c.args[c.argPos], "iteration directive argument")
+		c.argPos++
 		if atLeastOnce && len(argList) == 0 {
 			argList = slip.List{slip.List{}}
 		}
@@ -1707,12 +1696,9 @@ func (c *control) dirIter(colon, at bool, params []any) {
 	default:
 		// The iterator argument must be a list that is consumed progressively
 		// for each iteration.
-		c2.args = nil
-		if c.argPos < len(c.args) {
-			c.needArg()
-			c2.args = c.objAsList(c.args[c.argPos], "iteration directive argument")
-			c.argPos++
-		}
+		c.needArg()
+		c2.args = c.objAsList(c.args[c.argPos], "iteration directive argument")
+		c.argPos++
 		c2.argPos = 0
 		for ; 0 < n; n-- {
 			if (len(c2.args) <= c2.argPos && !atLeastOnce) || c2.stop {
